@@ -8,8 +8,11 @@ and never imports skoolkit.  Annotations are *token lists*; a token is either a 
 without white space) or a block:
 
     ('L', (item, item, ...))            item  = tuple of words        -> #LIST { .. } LIST#
-    ('T', wrap, (row, row, ...))        row   = tuple of cells, cell = tuple of words;
-                                        wrap  = 1: last column declared wrappable (':w')
+    ('T', wrap, (row, row, ...))        row   = tuple of cells, cell = tuple of words; the
+                                        first word of a cell may be an attribute word
+                                        '=r2' / '=c2' / '=h' / '=h,c2' (rowspan, colspan, header);
+                                        wrap  = 0: none, 1: last column declared wrappable
+                                        (':w'), or a tuple of wrappable column indexes
                                                                        -> #TABLE { a | b } TABLE#
 """
 from html.parser import HTMLParser
@@ -82,8 +85,9 @@ def render_token(tok):
             out += ['{'] + list(item) + ['}']
         return out + ['LIST#']
     _, wrap, rows = tok
-    ncols = max(len(r) for r in rows)
-    out = ['#TABLE(' + ',' * (ncols) + ':w)' if wrap else '#TABLE']
+    ncols = table_cells(tok)[1]
+    wcols = wrap_columns(wrap, ncols)
+    out = ['#TABLE(' + ','.join([''] + [':w' if j in wcols else '' for j in range(ncols)]) + ')' if wcols else '#TABLE']
     for row in rows:
         out.append('{')
         for j, cell in enumerate(row):
@@ -120,21 +124,65 @@ def flat_tokens(tokens, mode):
                 for row in t[2]:
                     for cell in row:
                         out.append(TD)
-                        out += list(cell)
+                        out += list(cell_spec(cell)[3])
     return out
 
 
+def wrap_columns(wrap, ncols):
+    if not wrap:
+        return ()
+    if wrap == 1:
+        return (ncols - 1,)
+    return tuple(wrap)
+
+
+def cell_spec(cell):
+    """(rowspan, colspan, header, words) of a cell (#TABLE cell attributes: '=' followed by
+    comma-separated c<N> / r<N> / h indicators, then the cell text)."""
+    rs = cs = 1
+    header = False
+    words = tuple(cell)
+    if words and words[0].startswith('='):
+        for ind in words[0][1:].split(','):
+            if ind.startswith('r'):
+                rs = int(ind[1:])
+            elif ind.startswith('c'):
+                cs = int(ind[1:])
+            elif ind == 'h':
+                header = True
+        words = words[1:]
+    return rs, cs, header, words
+
+
+def table_cells(tok):
+    """Grid placement of the cells of a table token: ([(row, col, rowspan, colspan, header,
+    words), ...] in source order, number of columns).  A cell is placed in the first column
+    of its row that is not taken by a cell spanning down from an earlier row."""
+    taken = set()
+    cells = []
+    ncols = 0
+    for r, row in enumerate(tok[2]):
+        c = 0
+        for cell in row:
+            while (r, c) in taken:
+                c += 1
+            rs, cs, header, words = cell_spec(cell)
+            for dr in range(rs):
+                for dc in range(cs):
+                    taken.add((r + dr, c + dc))
+            cells.append((r, c, rs, cs, header, words))
+            c += cs
+            ncols = max(ncols, c)
+    return cells, ncols
+
+
 def table_columns(tok):
-    rows = tok[2]
-    ncols = max(len(r) for r in rows)
-    cols = []
-    for j in range(ncols):
-        c = []
-        for r in rows:
-            if j < len(r):
-                c += list(r[j])
-        cols.append(tuple(c))
-    return tuple(cols)
+    """Per column, the words of the cells that *start* in that column, in row order."""
+    cells, ncols = table_cells(tok)
+    cols = [[] for _ in range(ncols)]
+    for r, c, rs, cs, header, words in cells:
+        cols[c] += list(words)
+    return tuple(tuple(c) for c in cols)
 
 
 # ----------------------------------------------------------------------------- brace rules
@@ -492,20 +540,31 @@ def split_comment_blocks(lines):
 
 
 def read_table_lines(texts):
-    """ASM table lines -> tuple of per-column word tuples."""
-    cols = None
+    """ASM table lines -> tuple of per-column word tuples.  The column boundaries are the
+    character positions at which any line of the table has a border character ('+' in a
+    border line, '|' in a row line); the text between two border characters of a line
+    belongs to the column that starts at the left one (a cell spanning several columns
+    simply has no border character at the inner boundaries)."""
+    bounds = set()
     for t in texts:
-        s = t.strip()
-        if s.startswith('+'):
-            continue
-        cells = s.strip('|').split('|') if s.endswith('|') else s[1:].split('|')
-        if cols is None:
-            cols = [[] for _ in cells]
-        while len(cols) < len(cells):
-            cols.append([])
-        for j, c in enumerate(cells):
-            cols[j] += c.split()
-    return tuple(tuple(c) for c in (cols or []))
+        if t.strip().startswith('+'):
+            bounds.update(i for i, ch in enumerate(t) if ch == '+')
+        bounds.update(i for i, ch in enumerate(t) if ch == '|')
+    bounds = sorted(bounds)
+    index = {b: k for k, b in enumerate(bounds)}
+    cols = [[] for _ in bounds[:-1]] or [[]]
+    for t in texts:
+        marks = [i for i, ch in enumerate(t) if ch in '|+' and i in index]
+        marks.append(len(t))
+        for m, nxt in zip(marks, marks[1:]):
+            seg = t[m + 1:nxt]
+            if seg.strip('-= ') == '':
+                continue
+            k = index[m]
+            while len(cols) <= k:
+                cols.append([])
+            cols[k] += seg.split()
+    return tuple(tuple(c) for c in cols)
 
 
 def asm_tokens(texts):
